@@ -18,7 +18,15 @@ let sl_parts = pr [("0", "0"); ("2", "5"); ("8", "8")]
 let un_ms = [MInt (I8, pr [("1", "10")]); MEnum [(bs "auto", zz "0"); (bs "11", zz "1"); (bs "5", zz "2")]; MStr (pr [("2", "3")])]
 let un2_ms = [MStr (pr [("1", "1")]); MInt (I8, [])]
 
-type v = VE of (n list * z) | VB of n list * n | VBin of (n list * n list) | VS of n list | VU of (nat * mval)
+type v = VE of (n list * z) | VB of n list * n | VBin of (n list * n list) | VS of n list | VU of (nat * mval) | VI of (n list * n list)
+
+(* idr  identityref {base ba; base bb;} in module types2: ba, bb; iab {base ba; base bb;}; ia {base ba;}; ib {base bb;};
+        iab2 {base iab;}  (base -> derived arrays); other modules of the context have no identities *)
+let t2m = bs "types2"
+let idn x = (t2m, bs x)
+let idr_schema = { ids_modules = [(t2m, [bs "ba"; bs "bb"; bs "iab"; bs "ia"; bs "ib"; bs "iab2"])];
+                   ids_derived = [(idn "ba", [idn "iab"; idn "ia"]); (idn "bb", [idn "iab"; idn "ib"]); (idn "iab", [idn "iab2"])] }
+let idr_bases = [idn "ba"; idn "bb"]
 
 let bits_def_of = function "bt" -> bt_def | _ -> bs_def
 let un_of = function "un" -> un_ms | _ -> un2_ms
@@ -31,6 +39,7 @@ let store (ty : string) (s : n list) : v option =
   | "s" -> (match str_store [] s with Ok x -> Some (VS x) | Err _ -> None)
   | "sl" -> (match str_store sl_parts s with Ok x -> Some (VS x) | Err _ -> None)
   | "un" | "un2" -> (match union_store (un_of ty) s with Ok x -> Some (VU x) | Err _ -> None)
+  | "idr" -> (match idref_store (nat_of_int 8) idr_schema t2m idr_bases s with Ok x -> Some (VI x) | Err _ -> None)
   | _ -> None
 
 let canon (ty : string) (x : v) : n list =
@@ -40,6 +49,7 @@ let canon (ty : string) (x : v) : n list =
   | VBin b -> binary_canon b
   | VS s -> s
   | VU u -> union_canon u
+  | VI i -> idref_canon i
 
 let detail (ty : string) (x : v) : string =
   match x with
@@ -47,6 +57,7 @@ let detail (ty : string) (x : v) : string =
   | VB (_, bm) -> " " ^ hex (le_bytes (bits_size (bits_def_of ty)) bm)
   | VBin b -> " " ^ hex (fst b)
   | VS _ -> ""
+  | VI _ -> ""
   | VU u -> " " ^ string_of_int (int_of_nat (fst u))
 
 let equal (ty : string) (a : v) (b : v) : bool =
@@ -56,6 +67,7 @@ let equal (ty : string) (a : v) (b : v) : bool =
   | VBin x, VBin y -> binary_compare x y
   | VS x, VS y -> str_compare x y
   | VU x, VU y -> union_compare x y
+  | VI x, VI y -> idref_compare x y
   | _ -> false
 
 let sortc (ty : string) (a : v) (b : v) : comparison =
@@ -65,6 +77,7 @@ let sortc (ty : string) (a : v) (b : v) : comparison =
   | VBin x, VBin y -> binary_sort x y
   | VS x, VS y -> str_sort x y
   | VU x, VU y -> union_sort x y
+  | VI x, VI y -> idref_sort x y
   | _ -> Eq
 
 let run (f : string list) : string =
